@@ -14,13 +14,87 @@ def main():
     g = gen.G(chk.seed * 1000003 + int(PROP[1:]))
     cs = arith.GROUPS[PROP](g, chk.pick(2500, 100000))
     common.judge_cases(chk, cs, runner, "post", "exact comparison or equal-hash rule violated")
+    complex_hashing(chk, mp, g)
     chk.cov["rule"] = RULE
     chk.assumptions += ["TLC evaluator and CommunityModules Json", "ZLimb (model-checked against native ints in ZLimbCheck)",
                         "exponents |e| < 2^30 (larger ones are dropped by the encoder)"]
     chk.finish()
 
 
+def complex_hashing(chk, mpmath, g):
+    """mpc against mpc / complex / mpf / int / float: equality must be exact and componentwise, and equal
+    values must hash equally (event chash_eq: x, y, observed x == y, hash(x), hash(y); judged by TLC)."""
+    from .. import enc, tlc
+    mp = mpmath.mp
+    r = g.r
+    events, meta = [], {}
+
+    def part(kind):
+        # values shared by all the types: small (negative) integers, dyadic fractions, doubles, specials
+        t = r.random()
+        if kind == "int" or t < 0.35:
+            return float(r.choice([0, 1, -1, 2, -2, 3, -3, 7, -7, 10 ** 6, -10 ** 6, 2 ** 40 + 1, -(2 ** 61 - 1), 2 ** 61 - 1, -(2 ** 61)]))
+        if t < 0.7:
+            return r.choice([1, -1]) * r.randint(1, 2 ** 20) / 2.0 ** r.randint(0, 30)
+        if t < 0.9:
+            return r.choice([1, -1]) * r.random() * 2.0 ** r.randint(-60, 60)
+        return r.choice([float("inf"), float("-inf"), 0.0, -0.0, float("nan")])
+
+    n = chk.pick(600, 20000)
+    for i in range(n):
+        re, im = part(""), part("")
+        if r.random() < 0.35:
+            im = 0.0
+        try:
+            a = mp.mpc(mp.mpf(re), mp.mpf(im))
+        except Exception:                                                  # noqa: BLE001
+            continue
+        t = r.random()
+        if t < 0.45:
+            other = complex(re, im); oa = {"k": "c", "re": enc.d(re), "im": enc.d(im)}; kind = "complex"
+        elif t < 0.6:
+            other = mp.mpc(mp.mpf(re), mp.mpf(im if r.random() < 0.8 else part(""))); oa = enc.c(other._mpc_); kind = "mpc"
+        elif t < 0.75 and re == int(re) if re == re and abs(re) != float("inf") else False:
+            other = int(re); oa = enc.z(other); kind = "int"
+        elif t < 0.88:
+            other = float(re); oa = enc.d(other); kind = "float"
+        else:
+            other = mp.mpf(re); oa = enc.f(other._mpf_); kind = "mpf"
+        try:
+            eq = bool(a == other); ha = hash(a); hb = hash(other)
+        except Exception as e:                                             # noqa: BLE001
+            chk.violation("chash_eq/%s/raises" % kind, "comparing or hashing mpc%r with %r raised %r" % ((re, im), other, e), {"re": re, "im": im, "other": repr(other)})
+            continue
+        eid = len(events)
+        events.append(enc.event(eid, "chash_eq", [enc.c(a._mpc_), oa, enc.b(eq), enc.z(ha), enc.z(hb)], 53, "n", enc.sym("none")))
+        neg = ("re<0" if re < 0 else "") + ("im<0" if im < 0 else "")
+        meta[eid] = {"kind": kind, "re": float(re).hex(), "im": float(im).hex(), "other": repr(other), "eq": eq, "hash_mpc": ha, "hash_other": hb, "neg": neg}
+    bad = tlc.judge(events, tag=PROP + "c")
+    chk.add_traces(len(events))
+    for ev in events:
+        m = meta[ev["id"]]
+        chk.count()
+        chk.distinct(("chash", m["kind"], m["re"], m["im"], m["other"]), m["eq"])
+    for i, cl in sorted(bad.items()):
+        if "post" in cl:
+            m = meta[i]
+            chk.violation("chash_eq/%s/%s" % (m["kind"], m["neg"] or "nonneg"),
+                          "mpc(%s, %s) against %s %s: equality observed %r, hashes %d and %d -- equality must be exact and equal values must hash equally"
+                          % (m["re"], m["im"], m["kind"], m["other"], m["eq"], m["hash_mpc"], m["hash_other"]), m)
+
+
 def replay(path):
+    import json
+    rec = json.load(open(path))["replay"]
+    if "hash_mpc" in rec:
+        mp = core.use_repo().mp
+        a = mp.mpc(mp.mpf(float.fromhex(rec["re"])), mp.mpf(float.fromhex(rec["im"])))
+        other = eval(rec["other"], {"mpc": mp.mpc, "mpf": mp.mpf, "inf": float("inf"), "nan": float("nan")})
+        print("mpc:", a, "other:", other, "equal:", a == other, "hashes:", hash(a), hash(other))
+        if a == other and hash(a) != hash(other):
+            print("VIOLATION property=%s replay=%s" % (PROP, path))
+            raise SystemExit(1)
+        raise SystemExit(0)
     common.replay(PROP, LEVEL, path, "post")
 
 
